@@ -4,3 +4,5 @@ import SppModel.Model.Plan
 import SppModel.Model.Stream
 import SppModel.Model.Moments
 import SppModel.Model.SigprocHeader
+import SppModel.Model.Samples
+import SppModel.Model.Reduce
